@@ -15,9 +15,12 @@ HERE = os.path.dirname(os.path.abspath(__file__))
 
 def _ensure_env():
     # a fixed hash seed makes set/dict iteration inside mofun and the harness a pure function of the inputs
-    if os.environ.get("PYTHONHASHSEED") != "0":
+    if os.environ.get("PYTHONHASHSEED") != "0" or os.environ.get("OMP_NUM_THREADS") != "1":
         env = dict(os.environ)
         env["PYTHONHASHSEED"] = "0"
+        # one BLAS/OpenMP thread per worker process: the 16 workers already use all cores
+        for k in ("OMP_NUM_THREADS", "OPENBLAS_NUM_THREADS", "MKL_NUM_THREADS", "NUMEXPR_NUM_THREADS"):
+            env[k] = "1"
         os.execve(sys.executable, [sys.executable] + sys.argv, env)
 
 
